@@ -8,6 +8,7 @@
 import json
 import random
 
+from . import mine
 from .pairing import AUDIT
 from .render import Prober, label
 from .tlc import run_tlc, validate_observations
@@ -53,6 +54,23 @@ def run(ctx):
             o['kind'] = 'pos'
             texts[o['id']] = (o.pop('text'), S, E)
             obs.append(o)
+    # constants the decoder's own code mentions (mined from the working tree) planted into the START / END words:
+    # alone, as tuples, in pairs - values random and boundary words do not reach
+    planted = 0
+    for name in decoders():
+        ok = mine.audit_allowed(AUDIT[name], skip=(4,))
+        base = lambda: pr.distinct_words(name, 'start') + [0] + pr.distinct_words(name, 'end')[1:]      # noqa
+        for vec, pl in mine.plant_vectors(name, base, ok, rnd, budget=40 if ctx.quick else 300):
+            S, E = list(vec[:4]), list(vec[4:])
+            o = label(pr, name, S, E, [b'/pp0', b'/pp1'], nalt=1 if ctx.quick else 2)
+            if not o['shaped']:
+                continue
+            planted += 1
+            o['id'] = '%s#p%d' % (name, planted)
+            o['kind'] = 'pos'
+            texts[o['id']] = (o.pop('text'), S, E)
+            obs.append(o)
+    ctx.extra['planted_probes'] = planted
     nv, rej, _ = validate_observations('Render_Val', obs, ctx.workdir, name='c09val', timeout=3000)
     ctx.traces += nv
     by = {o['id']: o for o in obs}
